@@ -140,6 +140,15 @@ def _order_ok(runs, lab, extra_ok=False):
     return None, None
 
 
+def _stale_refresh_only(w, diff, g, src, dst):
+    """the observed state differs from the specification only in locations the specification itself lists as stale (ghost), in a rebased world"""
+    from harness import mgrlib as ml
+    if not w.uni["name"].endswith("/rebased") or [c for c, _ in diff] != ["mem"]:
+        return False
+    stale = set(ml.spec_state(g.states[src])["ghost"]) | set(ml.spec_state(g.states[dst])["ghost"])
+    return set(diff[0][1]) <= stale
+
+
 def _closure(pairs, start):
     adj = collections.defaultdict(set)
     for x, y in pairs:
@@ -286,7 +295,10 @@ def worker_main(jobfile, shard, nshards):
             except ml.Uncovered:
                 return None
             if ml.state_diff(obs, exp):
-                if plab.get("cyc") or plab.get("exc") == "Fault":
+                if _stale_refresh_only(w, ml.state_diff(obs, exp), g, ps, pd):
+                    w.resync(exp["mem"], exp["kprev"])
+                    stats["prefix_resync"] += 1
+                elif plab.get("cyc") or plab.get("exc") == "Fault":
                     if obs["defs"] != exp["defs"] or obs["reg"] != exp["reg"]:
                         stats["prefix_diverged"] += 1
                         return None
@@ -385,6 +397,13 @@ def worker_main(jobfile, shard, nshards):
             return
         exp = ml.spec_state(g.states[d])
         diff = ml.state_diff(obs, exp)
+        if diff and _stale_refresh_only(w, diff, g, s, d):
+            # a manager rebased one container level down triggers EVERY task on every assignment (each reads below the container that was
+            # written into): locations the specification lists as stale (their task did not run after a fault / a load) are refreshed
+            # there, which no property forbids; continue from the specification's state
+            stats["rebased_stale_refresh"] += 1
+            w.resync(exp["mem"], exp["kprev"])
+            diff = []
         # ---- shadows: managers that must not be affected by what happens to this one (C12) --------------
         shbad = None
         for sw, snap in w.shadows:
@@ -433,6 +452,30 @@ def worker_main(jobfile, shard, nshards):
             fail(sorted(tags), f"{lab['a']}({lab.get('l', lab.get('t', lab.get('kind', '')))}): state differs from the specification in {comps}: {repr(diff)[:300]}",
                  eis[0], {"diff": repr(diff)[:1500]}, known)
             return
+        # ---- C13, the other side of the equivalence: the same arguments ASSIGNED THROUGH THE MANAGER, one after the other, on a second
+        # world driven along the same path (the state may be stale there: after a fault, after load() / copy_expr_from registered definitions
+        # without running them): both formulations must end in the specification's successor
+        if lab["a"] == "GenFun" and epi["cur"] is None and not lab.get("cyc") and not w.uni["name"].endswith("/rebased"):
+            w2 = go_to(s, eis[0])
+            if w2 is not None and not w2.uni["name"].endswith("/rebased"):
+                stats["genfun_vs_assignments"] += 1
+                r2 = None
+                for l_, v_ in zip(lab["args"], lab["vals"]):
+                    r2 = ml.execute(w2, {"a": "SetValue", "l": l_, "v": v_})
+                    if r2["exc"] is not None:
+                        break
+                if r2 is not None and r2["exc"] is not None:
+                    fail(["C13", "C01"], f"GenFun({lab['args']}): the generated function returned normally, assigning the same values through the manager raised {r2['exc']!r}",
+                         eis[0], {})
+                    return
+                try:
+                    d2 = ml.state_diff(ml.abs_state(w2), ml.spec_state(g.states[d]))
+                except ml.Uncovered:
+                    d2 = None
+                if d2:
+                    fail(["C13", "C01"], f"GenFun({lab['args']}, {lab['vals']}): the generated function leaves the specification's successor, assigning the same values "
+                         f"through the manager does not: {repr(d2)[:300]}", eis[0], {"diff": repr(d2)[:1500]})
+                    return
         # ---- C03: queries ---------------------------------------------------------------------------------
         if queries and (epi["cur"] is None or isinstance(epi["cur"][1], dict)) and "idx" in lab and "rdeps" in lab["idx"]:
             stats["query_edges"] += 1
